@@ -25,18 +25,26 @@ package broker
 //@ spec func inS(s []s3Sample, p int) bool = off(s) <= p && p < off(s) + len(s)
 //@ spec func sAt(s []s3Sample, p int) s3Sample = s[p - off(s)]
 //@ spec func samplesOK(samples []s3Sample) bool = len(samples) <= 1048576 && (forall p int :: inS(samples, p) ==> 0 <= sAt(samples, p).latency && sAt(samples, p).latency <= 4398046511104) && (forall p int, q int :: inS(samples, p) && inS(samples, q) && p <= q ==> tinst(sAt(samples, p).ts) <= tinst(sAt(samples, q).ts))
+// (opaque: callers in other packages see monOK only as a name; the roots of this package reveal it)
 //@ spec func monOK(m *S3HealthMonitor) bool = cfgOK(m.cfg) && samplesOK(m.samples)
+//@ opaque
+// "Any mean latency / error fraction at least as high would rate no better than st."
+//@ spec func noBetterAbove(avg time.Duration, er float64, cfg S3HealthConfig, st S3HealthState) bool = forall a2 time.Duration, e2 float64 :: a2 >= avg && e2 >= er ==> rank(rateOf(a2, e2, cfg)) >= rank(st)
+//@ opaque
 
 //@ func NewS3HealthMonitor
+//@   reveal monOK, noBetterAbove
 //@   requires cfg.MaxSamples <= 1048576 && cfg.Window <= 4611686018427387904
 //@   ensures [C25.new_monitor_ok] result != nil && monOK(result) && len(result.samples) == 0 && result.state == "healthy"
 //@   ensures [C25.new_keeps_positive_thresholds] (cfg.LatencyWarn > 0 ==> result.cfg.LatencyWarn == cfg.LatencyWarn) && (cfg.LatencyCrit > 0 ==> result.cfg.LatencyCrit == cfg.LatencyCrit) && (cfg.ErrorWarn > real(0) ==> result.cfg.ErrorWarn == cfg.ErrorWarn) && (cfg.ErrorCrit > real(0) ==> result.cfg.ErrorCrit == cfg.ErrorCrit) && (cfg.Window > 0 ==> result.cfg.Window == cfg.Window)
 
 //@ func (m *S3HealthMonitor) setStateLocked
+//@   reveal monOK, noBetterAbove
 //@   ensures [C25.set_state] m.state == next && (old(m.state) == next ==> m.stateSince == old(m.stateSince)) && sameSlice(m.samples, old(m.samples)) && m.cfg == old(m.cfg) && m.avgLatency == old(m.avgLatency) && m.errorRate == old(m.errorRate)
 
 // Drops exactly the leading samples that are not after now-Window; what remains is the old tail, unchanged.
 //@ func (m *S3HealthMonitor) truncateLocked
+//@   reveal monOK, noBetterAbove
 //@   requires monOK(m)
 //@   ensures [C25.truncate_keeps_tail] let k = old(len(m.samples)) - len(m.samples) in (0 <= k && (forall j int :: 0 <= j && j < len(m.samples) ==> m.samples[j] == old(m.samples[j+k])))
 //@   ensures [C25.truncate_drops_only_expired] let k = old(len(m.samples)) - len(m.samples) in (forall j int :: 0 <= j && j < k ==> tinst(old(m.samples[j]).ts) <= tinst(now) - m.cfg.Window)
@@ -48,11 +56,12 @@ package broker
 // The published aggregates are the mean latency and the error fraction of the retained samples, and the state is
 // the prescribed rating of exactly these two numbers.
 //@ func (m *S3HealthMonitor) recomputeLocked
+//@   reveal monOK, noBetterAbove
 //@   requires monOK(m)
 //@   ensures [C25.avg_is_window_mean] m.avgLatency == avgOf(m.samples)
 //@   ensures [C25.error_rate_is_window_fraction] m.errorRate == errRateOf(m.samples)
 //@   ensures [C25.rating_thresholds] m.state == rateOf(m.avgLatency, m.errorRate, m.cfg)
-//@   ensures [C25.rating_monotone] forall a2 time.Duration, e2 float64 :: a2 >= m.avgLatency && e2 >= m.errorRate ==> rank(rateOf(a2, e2, m.cfg)) >= rank(m.state)
+//@   ensures [C25.rating_monotone] noBetterAbove(m.avgLatency, m.errorRate, m.cfg, m.state)
 //@   ensures [C25.recompute_frame] sameSlice(m.samples, old(m.samples)) && m.cfg == old(m.cfg)
 //@   loop 1 invariant -1 <= rangeindex && rangeindex < len(m.samples) && sameSlice(m.samples, old(m.samples)) && m.cfg == old(m.cfg)
 //@   loop 1 invariant totalLatency == sumInt(m.samples, "latency", rangeindex + 1) && 0 <= totalLatency && totalLatency <= (rangeindex + 1) * 4398046511104
@@ -62,17 +71,19 @@ package broker
 // latency and error fraction of the samples retained after dropping everything older than the window (gnow is the
 // instant time.Now returned inside the call), and any higher mean latency / error fraction would rate no better.
 //@ func (m *S3HealthMonitor) State
-//@   requires monOK(m)
+//@   reveal monOK, noBetterAbove
+//@   rep_invariant monOK(m)
 //@   ghost gnow Int = 0
 //@   at Now#1 after set gnow = tinst(ret0)
 //@   ensures [C25.state_is_window_rating] result == m.state && result == rateOf(avgOf(m.samples), errRateOf(m.samples), m.cfg)
 //@   ensures [C25.state_window_only] forall p int :: inS(m.samples, p) ==> tinst(sAt(m.samples, p).ts) > gnow - m.cfg.Window
-//@   ensures [C25.state_monotone] forall a2 time.Duration, e2 float64 :: a2 >= avgOf(m.samples) && e2 >= errRateOf(m.samples) ==> rank(rateOf(a2, e2, m.cfg)) >= rank(result)
+//@   ensures [C25.state_monotone] noBetterAbove(avgOf(m.samples), errRateOf(m.samples), m.cfg, result)
 //@   ensures [C25.state_three_values] result == "healthy" || result == "degraded" || result == "unavailable"
 //@   ensures [C25.state_keeps_invariant] monOK(m) && m.cfg == old(m.cfg)
 //@
 //@ func (m *S3HealthMonitor) Snapshot
-//@   requires monOK(m)
+//@   reveal monOK, noBetterAbove
+//@   rep_invariant monOK(m)
 //@   ghost gnow Int = 0
 //@   at Now#1 after set gnow = tinst(ret0)
 //@   ensures [C25.snapshot_is_window_rating] result.State == m.state && result.State == rateOf(avgOf(m.samples), errRateOf(m.samples), m.cfg) && result.AvgLatency == avgOf(m.samples) && result.ErrorRate == errRateOf(m.samples)
@@ -82,7 +93,9 @@ package broker
 // RecordOperation: the new sample is appended (the clock is assumed not to run backwards with respect to the last
 // recorded sample), the cap and the window are applied, and the state is re-rated.
 //@ func (m *S3HealthMonitor) RecordOperation
-//@   requires monOK(m) && 0 <= latency && latency <= 4398046511104
+//@   reveal monOK, noBetterAbove
+//@   rep_invariant monOK(m)
+//@   requires 0 <= latency && latency <= 4398046511104
 //@   ghost gnow Int = 0
 //@   at Now#1 after set gnow = tinst(ret0)
 //@   at Now#1 after assume len(m.samples) > 0 ==> tinst(ret0) >= tinst(m.samples[len(m.samples)-1].ts)
@@ -92,5 +105,7 @@ package broker
 //@   ensures [C25.record_keeps_invariant] monOK(m) && m.cfg == old(m.cfg)
 //@
 //@ func (m *S3HealthMonitor) RecordUpload
-//@   requires monOK(m) && 0 <= latency && latency <= 4398046511104
+//@   reveal monOK, noBetterAbove
+//@   rep_invariant monOK(m)
+//@   requires 0 <= latency && latency <= 4398046511104
 //@   ensures [C25.upload_keeps_invariant] monOK(m) && m.cfg == old(m.cfg)
